@@ -61,4 +61,35 @@ theorem five_zero_heights_end :
      | .ok (_, cs) => cs.length == 5
      | _ => false) = true := by decide +kernel
 
+theorem drawDown_zero_then (H : Int) (hH : H ≥ 1) (h : Nat) : ∀ (k i : Nat) (acc : List Child),
+    { idx := i + k, row := 0, height := h } ∈ drawDown 0 false 0 H (List.replicate k 0 ++ [h]) i 0 acc := by
+  intro k
+  induction k with
+  | zero =>
+    intro i acc
+    simp only [List.replicate_zero, List.nil_append, drawDown, Bool.false_eq_true, false_and, ↓reduceIte, Nat.add_zero]
+    split <;> simp
+  | succ k ih =>
+    intro i acc
+    have h1 : ¬ ((0 : Int) + ((0 : Nat) : Int) + 0 ≥ H) := by omega
+    have h0 : ((0 : Int) + ((0 : Nat) : Int) + 0) = 0 := by simp
+    simp only [List.replicate_succ, List.cons_append, drawDown, Bool.false_eq_true, false_and, ↓reduceIte, h1]
+    rw [h0]
+    have := ih (i + 1) (acc ++ [{ idx := i, row := 0, height := 0 }])
+    rwa [Nat.add_assoc, Nat.add_comm 1 k] at this
+
+/-- **Why a cap on zero-progress iterations is not a repair**: `k` widgets of height 0 followed by a widget of
+    height `h`, gap 0, viewport of at least one row: `Draw` shows the widget of height `h` at row 0 — for EVERY `k`.
+    A downward loop that gave up after any fixed number `N` of iterations without progress would lose it for
+    `k > N` although it is the first thing visible in the viewport (and, nothing covering row 0 before it, the
+    scroll position would not advance to reach it either). -/
+theorem zero_heights_then_content (k h W H : Nat) (hH : 1 ≤ H) (h1 : H ≠ 65535) (h2 : W ≠ 65535) :
+    (match draw Facts.fixed ⟨0, false⟩ (List.replicate k 0 ++ [h]) init W H with
+     | .ok (_, cs) => { idx := k, row := 0, height := h } ∈ cs
+     | .error _ => False) := by
+  have hd := drawDown_zero_then (H : Int) (by omega) h k 0 []
+  simp only [Nat.zero_add] at hd
+  simp [draw, Facts.fixed, clampTop, clampLoop, prologue, init, scrollUp, gutter, reveal, h1, h2]
+  exact hd
+
 end VaxisModel.Witness.F119i
